@@ -44,7 +44,15 @@ def begin():
     del _CREATED[:]
 
 
+FIX = PARAM.get('fix') or {}
+
+
 def _mk(name, ctor, conv):
+    if REPLAY is None and name in FIX:
+        # this choice is split over parallel obligations: concrete here, recorded in the witness
+        v = conv(FIX[name])
+        _CREATED.append((name, v))
+        return v
     if REPLAY is not None:
         if name not in REPLAY:
             raise MissingWitness(name)
